@@ -104,8 +104,18 @@ InvScn(m) == LET user == List(m, Below(6, m, 1), 10)
                  inv == Invalid[1 + Below(Len(Invalid), m, 3)]
                  tags == [j \in 1..Len(user) |-> Tag(user[j])]
              IN [id |-> m, kind |-> "invalid", user |-> Insert(tags, Below(Len(user) + 1, m, 4), inv.tag), platform |-> <<>>, reject |-> inv.reject]
+\* values at the edge of the catalogue: a port that is another transport's default (22 ssh, 23 telnet, 830 NETCONF over ssh) or the
+\* largest one, with every built-in transport type, the two options in both orders. Fold says: the port given is the port held and
+\* the transport type given is the transport built - a default is only what holds when nothing was given.
+EdgePorts == <<22, 23, 830, 65535>>
+EdgeTypes == <<"system", "standard", "telnet">>
+EdgeCount == 24
+EdgeScn(k) == [id |-> 100000 + k, kind |-> "edge", user |-> <<>>, platform |-> <<>>,
+               port |-> EdgePorts[1 + (k % 4)], transport |-> EdgeTypes[1 + ((k \div 4) % 3)],
+               first |-> IF (k \div 12) % 2 = 0 THEN "port" ELSE "type"]
 Init == n = 0
 Next == n < Count /\ n' = n + 1 /\ Assert(OrderLaw(n), "order law violated") /\ PrintT("SCN " \o ToJson(Scn(n)))
              /\ (n % 5 = 0 => PrintT("SCN " \o ToJson(InvScn(n))))
+             /\ (n < EdgeCount => PrintT("SCN " \o ToJson(EdgeScn(n))))
 Spec == Init /\ [][Next]_n
 =============================================================================
